@@ -99,16 +99,30 @@ ElemLen(k, pre, b, o, to) ==
 (* Tile the container [o, to) with elements of kind k.
    ok    : the elements fill the container exactly;
    over  : the last element's declared extent passes the end of the container;
-   trunc : fewer octets are left than the length field of the next element needs. *)
-RECURSIVE Walk(_, _, _, _, _)
-Walk(k, pre, b, o, to) ==
-  IF o >= to THEN [els |-> <<>>, ok |-> (o = to), over |-> FALSE, trunc |-> FALSE]
+   trunc : fewer octets are left than the length field of the next element needs.
+   The recursion is cut into chunks of 64 elements (WalkN inside a chunk, WalkChunks across
+   chunks) so that its depth stays in the hundreds for a 65535-octet message of one-octet
+   elements: TLC's evaluation time grows steeply with the Java stack depth. *)
+RECURSIVE WalkN(_, _, _, _, _, _)
+WalkN(k, pre, b, o, to, cnt) ==
+  IF o >= to THEN [els |-> <<>>, next |-> o, st |-> IF o = to THEN "end" ELSE "past"]
+  ELSE IF cnt = 0 THEN [els |-> <<>>, next |-> o, st |-> "more"]
   ELSE LET n == ElemLen(k, pre, b, o, to) IN
-       IF n < 0 THEN [els |-> <<>>, ok |-> FALSE, over |-> FALSE, trunc |-> TRUE]
+       IF n < 0 THEN [els |-> <<>>, next |-> o, st |-> "trunc"]
        ELSE IF o + n > to
-            THEN [els |-> <<[o |-> o, n |-> n]>>, ok |-> FALSE, over |-> TRUE, trunc |-> FALSE]
-            ELSE LET r == Walk(k, pre, b, o + n, to)
+            THEN [els |-> <<[o |-> o, n |-> n]>>, next |-> o, st |-> "over"]
+            ELSE LET r == WalkN(k, pre, b, o + n, to, cnt - 1)
                  IN [r EXCEPT !.els = <<[o |-> o, n |-> n]>> \o @]
+
+RECURSIVE WalkChunks(_, _, _, _, _)
+WalkChunks(k, pre, b, o, to) ==
+  LET c == WalkN(k, pre, b, o, to, 64) IN
+  IF c.st # "more" THEN c
+  ELSE LET r == WalkChunks(k, pre, b, c.next, to) IN [r EXCEPT !.els = c.els \o @]
+
+Walk(k, pre, b, o, to) ==
+  LET c == WalkChunks(k, pre, b, o, to)
+  IN [els |-> c.els, ok |-> c.st = "end", over |-> c.st = "over", trunc |-> c.st = "trunc"]
 
 NoWalk == [els |-> <<>>, ok |-> TRUE, over |-> FALSE, trunc |-> FALSE]
 
